@@ -52,6 +52,7 @@ def run(chk, repo, tier):
     chk.clause('C03-e', 'the slice cache is recomputed from the mask wherever the mask is assigned', 2)
     chk.clause('C03-f', 'the mask is a multiplicative factor of every segment phasor on every path', 4)
     chk.clause('C03-g', 'sub-array offsets reach the transform', 3)
+    chk.clause('C03-i', 'the slice cache holds one bounding slice per (segment) mask', 2)
     chk.not_decided += ['numerical equality of segmented and monolithic results']
 
     coherent(chk, repo, 'C03-a')
@@ -61,6 +62,8 @@ def run(chk, repo, tier):
     disjoint_rules(Remap(chk, {'C06-f': 'C03-c'}), repo)
     helper_rules(Remap(chk, {'C20-d': 'C03-h'}), repo)
 
+    from .extra_rules import plane_slice_rule
+    plane_slice_rule(chk, repo, 'C03-i')
     # ---------------------------------------------------------------- C03-b
     f, paths, _ = analyse(repo, 'field._merge')
     ok, det = False, ''
